@@ -66,7 +66,22 @@ def gen(rng, n):
         n_inc = rng.choice([6, 8])
         case = {"kind": "lp-run", "spec": spec, "n_inc": n_inc, "dt": str(rng.choice([F(1), F(1, 2)]))}
         ps = net.build(dict(spec, exact=False))
-        if j % 5 == 4:
+        if j % 5 == 3:
+            # targeted: a load point at the end of a lateral with a small production unit of its own; a fault on its line leaves
+            # it as a one-bus island whose supply covers only part of its demand
+            spec["mg"] = None
+            fd = spec["feeders"][0]
+            while len(fd["parent"]) < 2:
+                fd["parent"].append(0); fd["sw"].append(1); fd["cust"].append(1); fd["load"].append("1/20"); fd["cost"].append(2)
+                if fd.get("cap"):
+                    fd["cap"].append(None)
+            leaf = max(i for i in range(len(fd["parent"])) if i not in set(fd["parent"]))
+            fd["sw"][leaf] = rng.choice([1, 3])
+            fd["load"][leaf] = "1/20"
+            fd["prod"] = {str(leaf): {"p": str(rng.choice([F(1, 100), F(1, 50)])), "q": "0"}}
+            ps = net.build(dict(spec, exact=False))
+            case["faults"] = {str(rng.randint(1, 2)): [["line", f"F0L{leaf}", "3"]]}
+        elif j % 5 == 4:
             # targeted: no production, cheapest costs, smallest load points, the whole feeder cut off from the feed
             spec["mg"] = None
             for fd in spec["feeders"]:
@@ -115,7 +130,7 @@ def dump_instance(c, A, b, bounds):
     return f"{n} {rows} {flist([fx(v) for v in b])} {flist([fx(v) for v in c])} {flist([fx(lo) for lo, hi in bounds])} {flist([fx(hi) for lo, hi in bounds])}"
 
 
-def run_and_capture(case):
+def run_and_capture(case, observe=None):
     """Runs the real simulation; returns one record per linprog call with the island it came from."""
     import relsad.energy.shedding as shed
     import relsad.simulation.Simulation  # noqa: F401
@@ -158,7 +173,7 @@ def run_and_capture(case):
     shed.linprog = lin
     simmod.shed_energy = shed_energy
     try:
-        ps, sim = acct.e2e_run(dict(case, save=False))
+        ps, sim = acct.e2e_run(dict(case, save=False), observe=observe)
     finally:
         shed.linprog = orig_lin
         simmod.shed_energy = orig_shed
